@@ -342,4 +342,235 @@ theorem inv_init (ctx : Ctx) (op : Operation) (node : Node) (paths : List Path) 
     item := fun p h => by cases h
     items := fun _ h => h }
 
+/-! ## concrete paths: the loops are first-match lookups -/
+
+/-- outcome of the innermost loop on a concrete path, cursor positions forgotten -/
+inductive LeafOutcome | found (l : Leaf) | filtered | err (s : Status) | exhausted
+deriving DecidableEq
+
+def LeafRes.outcome : LeafRes → LeafOutcome
+  | .found _ l => .found l
+  | .filtered => .filtered
+  | .err s => .err s
+  | .exhausted => .exhausted
+
+theorem matchesOpt_some (a b : Nat) : matchesOpt (some a) b = (a == b) := rfl
+
+theorem leafLoop_concrete {ctx : Ctx} {op : Operation} {path : Path} {e : Endpoint} {c : Cluster}
+    {la : Option (Nat × Nat × Nat)} (hw : isWildcard path = false) {lf : Nat} (hl : path.leaf = some lf)
+    (ls : List Leaf) (li : Nat) :
+    (leafLoop ctx op path e c la ls li).outcome =
+      (match ls.find? (fun l => l.id == lf) with
+       | none => .exhausted
+       | some l => match leafCheck ctx op e c l.id la with
+         | .ok true => .found l
+         | .ok false => .filtered
+         | .error s => .err s) := by
+  induction ls generalizing li with
+  | nil => simp [leafLoop, LeafRes.outcome]
+  | cons x xs ih =>
+    unfold leafLoop
+    rw [matchesOpt_iff, hl, matchesOpt_some]
+    by_cases hx : (lf == x.id) = true
+    · have hx' : (x.id == lf) = true := by rw [beq_iff_eq] at hx ⊢; exact hx.symm
+      rw [if_pos hx, List.find?_cons_of_pos (p := fun (l : Leaf) => l.id == lf) (l := xs) hx']
+      simp only
+      cases hc : leafCheck ctx op e c x.id la with
+      | error s => simp [hw, LeafRes.outcome]
+      | ok b => cases b <;> simp [hw, LeafRes.outcome]
+    · have hx' : ¬ (x.id == lf) = true := by rw [beq_iff_eq] at hx ⊢; exact fun h => hx h.symm
+      rw [if_neg hx, List.find?_cons_of_neg (p := fun (l : Leaf) => l.id == lf) (l := xs) hx']
+      exact ih _
+
+inductive ClusterOutcome | found (c : Cluster) (l : Leaf) | filtered | err (s : Status) | exhausted
+deriving DecidableEq
+
+def ClusterRes.outcome : ClusterRes → ClusterOutcome
+  | .found _ _ c l => .found c l
+  | .filtered => .filtered
+  | .err s => .err s
+  | .exhausted _ => .exhausted
+
+/-- what a concrete path must produce inside one cluster -/
+def leafOutcome (ctx : Ctx) (op : Operation) (e : Endpoint) (c : Cluster) (la : Option (Nat × Nat × Nat))
+    (lf : Nat) : ClusterOutcome :=
+  match (c.leaves (op == .invoke)).find? (fun l => l.id == lf) with
+  | none => .err (if (op == .invoke) = true then .unsupportedCommand else .unsupportedAttribute)
+  | some l => match leafCheck ctx op e c l.id la with
+    | .ok true => .found c l
+    | .ok false => .filtered
+    | .error s => .err s
+
+theorem clusterLoop_concrete {ctx : Ctx} {op : Operation} {path : Path} {e : Endpoint}
+    {la : Option (Nat × Nat × Nat)} (hw : isWildcard path = false) {cl lf : Nat}
+    (hcl : path.cluster = some cl) (hl : path.leaf = some lf) (cs : List Cluster) (ci : Nat) :
+    (clusterLoop ctx op path e la cs ci 0).outcome =
+      (match cs.find? (fun c => c.id == cl) with
+       | none => .exhausted
+       | some c => leafOutcome ctx op e c la lf) := by
+  induction cs generalizing ci with
+  | nil => simp [clusterLoop, ClusterRes.outcome]
+  | cons x xs ih =>
+    unfold clusterLoop
+    rw [matchesOpt_iff, hcl, matchesOpt_some]
+    by_cases hx : (cl == x.id) = true
+    · have hx' : (x.id == cl) = true := by rw [beq_iff_eq] at hx ⊢; exact hx.symm
+      rw [if_pos hx, List.find?_cons_of_pos (p := fun (c : Cluster) => c.id == cl) (l := xs) hx']
+      simp only [List.drop_zero]
+      have hlo := leafLoop_concrete (ctx := ctx) (op := op) (e := e) (c := x) (la := la) hw hl
+        (x.leaves (op == .invoke)) 0
+      unfold leafOutcome
+      cases hr : leafLoop ctx op path e x la (x.leaves (op == .invoke)) 0 with
+      | found l2 lf2 =>
+        rw [hr] at hlo
+        simp only [LeafRes.outcome] at hlo
+        simp only [ClusterRes.outcome]
+        cases hf : (x.leaves (op == .invoke)).find? (fun l => l.id == lf) with
+        | none => rw [hf] at hlo; cases hlo
+        | some l =>
+          rw [hf] at hlo
+          simp only at hlo ⊢
+          cases hc : leafCheck ctx op e x l.id la with
+          | error s => rw [hc] at hlo; cases hlo
+          | ok b =>
+            cases b with
+            | true => rw [hc] at hlo; injection hlo with hlo; rw [hlo]
+            | false => rw [hc] at hlo; cases hlo
+      | filtered =>
+        rw [hr] at hlo
+        simp only [LeafRes.outcome] at hlo
+        simp only [ClusterRes.outcome]
+        cases hf : (x.leaves (op == .invoke)).find? (fun l => l.id == lf) with
+        | none => rw [hf] at hlo; cases hlo
+        | some l =>
+          rw [hf] at hlo
+          simp only at hlo ⊢
+          cases hc : leafCheck ctx op e x l.id la with
+          | error s => rw [hc] at hlo; cases hlo
+          | ok b =>
+            cases b with
+            | true => rw [hc] at hlo; cases hlo
+            | false => rfl
+      | err s =>
+        rw [hr] at hlo
+        simp only [LeafRes.outcome] at hlo
+        simp only [ClusterRes.outcome]
+        cases hf : (x.leaves (op == .invoke)).find? (fun l => l.id == lf) with
+        | none => rw [hf] at hlo; cases hlo
+        | some l =>
+          rw [hf] at hlo
+          simp only at hlo ⊢
+          cases hc : leafCheck ctx op e x l.id la with
+          | error s' => rw [hc] at hlo; injection hlo with hlo; rw [hlo]
+          | ok b =>
+            cases b with
+            | true => rw [hc] at hlo; cases hlo
+            | false => rw [hc] at hlo; cases hlo
+      | exhausted =>
+        rw [hr] at hlo
+        simp only [LeafRes.outcome] at hlo
+        simp only [hw, Bool.not_false, if_true, ClusterRes.outcome]
+        cases hf : (x.leaves (op == .invoke)).find? (fun l => l.id == lf) with
+        | none => rfl
+        | some l =>
+          rw [hf] at hlo
+          simp only at hlo
+          cases hc : leafCheck ctx op e x l.id la with
+          | error s' => rw [hc] at hlo; cases hlo
+          | ok b => cases b <;> (rw [hc] at hlo; cases hlo)
+    · have hx' : ¬ (x.id == cl) = true := by rw [beq_iff_eq] at hx ⊢; exact fun h => hx h.symm
+      rw [if_neg hx, List.find?_cons_of_neg (p := fun (c : Cluster) => c.id == cl) (l := xs) hx']
+      exact ih _
+
+inductive PathOutcome | item (ep cl lf : Nat) (array : Bool) | done | err (s : Status)
+deriving DecidableEq
+
+def PathRes.outcome : PathRes → PathOutcome
+  | .yield ep cl lf a _ => .item ep cl lf a
+  | .done => .done
+  | .err s => .err s
+
+def arrayFlag (op : Operation) (c : Cluster) (l : Leaf) : Bool :=
+  !(op == .invoke) && (((c.leaves false).find? (fun a => a.id == l.id)).map (·.array)).getD false
+
+/-- what a concrete path `(ep, cl, lf)` must produce, by first-match lookup level by level -/
+def concreteOutcome (ctx : Ctx) (op : Operation) (es : List Endpoint) (la : Option (Nat × Nat × Nat))
+    (ep cl lf : Nat) : PathOutcome :=
+  match es.find? (fun e => ep == e.id && isEndpointAccessible ctx.fabrics ctx.accessor e.id) with
+  | none => .err .unsupportedEndpoint
+  | some e =>
+    match e.clusters.find? (fun c => c.id == cl) with
+    | none => .err .unsupportedCluster
+    | some c =>
+      match leafOutcome ctx op e c la lf with
+      | .found c l => .item e.id c.id l.id (arrayFlag op c l)
+      | .filtered => .done
+      | .err s => .err s
+      | .exhausted => .err .unsupportedCluster
+
+theorem endpointLoop_concrete {ctx : Ctx} {op : Operation} {path : Path}
+    {la : Option (Nat × Nat × Nat)} (hw : isWildcard path = false) {ep cl lf : Nat}
+    (hep : path.endpoint = some ep) (hcl : path.cluster = some cl) (hl : path.leaf = some lf)
+    (es : List Endpoint) :
+    (endpointLoop ctx op path la es 0 0).outcome = concreteOutcome ctx op es la ep cl lf := by
+  induction es with
+  | nil => simp [endpointLoop, hw, PathRes.outcome, concreteOutcome]
+  | cons x xs ih =>
+    unfold endpointLoop concreteOutcome
+    rw [matchesOpt_iff, hep, matchesOpt_some]
+    by_cases hx : (ep == x.id && isEndpointAccessible ctx.fabrics ctx.accessor x.id) = true
+    · rw [if_pos hx, List.find?_cons_of_pos
+        (p := fun (e : Endpoint) => ep == e.id && isEndpointAccessible ctx.fabrics ctx.accessor e.id) (l := xs) hx]
+      simp only [List.drop_zero]
+      have hco := clusterLoop_concrete (ctx := ctx) (op := op) (e := x) (la := la) hw hcl hl x.clusters 0
+      cases hr : clusterLoop ctx op path x la x.clusters 0 0 with
+      | found c2 l2 cc lf2 =>
+        rw [hr] at hco
+        simp only [ClusterRes.outcome] at hco
+        simp only [PathRes.outcome]
+        cases hf : x.clusters.find? (fun c => c.id == cl) with
+        | none => rw [hf] at hco; cases hco
+        | some c =>
+          rw [hf] at hco
+          simp only at hco ⊢
+          rw [← hco]
+          simp [arrayFlag]
+      | filtered =>
+        rw [hr] at hco
+        simp only [ClusterRes.outcome] at hco
+        simp only [PathRes.outcome]
+        cases hf : x.clusters.find? (fun c => c.id == cl) with
+        | none => rw [hf] at hco; cases hco
+        | some c => rw [hf] at hco; simp only at hco ⊢; rw [← hco]
+      | err s =>
+        rw [hr] at hco
+        simp only [ClusterRes.outcome] at hco
+        simp only [PathRes.outcome]
+        cases hf : x.clusters.find? (fun c => c.id == cl) with
+        | none => rw [hf] at hco; cases hco
+        | some c => rw [hf] at hco; simp only at hco ⊢; rw [← hco]
+      | exhausted l2 =>
+        rw [hr] at hco
+        simp only [ClusterRes.outcome] at hco
+        simp only [hw, Bool.not_false, if_true, PathRes.outcome]
+        cases hf : x.clusters.find? (fun c => c.id == cl) with
+        | none => rfl
+        | some c => rw [hf] at hco; simp only at hco ⊢; rw [← hco]
+    · rw [if_neg hx, List.find?_cons_of_neg
+        (p := fun (e : Endpoint) => ep == e.id && isEndpointAccessible ctx.fabrics ctx.accessor e.id) (l := xs) hx]
+      exact ih
+
+/-- **A concrete path, expanded from a fresh cursor, produces exactly the first-match outcome**:
+the element if every level exists, the filter admits it and the check passes; nothing if the filter
+rejects it; otherwise the single status of the first failing level. -/
+theorem nextForPath_concrete (ctx : Ctx) (op : Operation) (node : Node) (path : Path)
+    (la : Option (Nat × Nat × Nat)) {ep cl lf : Nat}
+    (hep : path.endpoint = some ep) (hcl : path.cluster = some cl) (hl : path.leaf = some lf) :
+    (nextForPath ctx op node path {} la).outcome = concreteOutcome ctx op node la ep cl lf := by
+  have hw : isWildcard path = false := by simp [isWildcard, hep, hcl, hl]
+  unfold nextForPath
+  simp only [hcl, hl, Option.isNone_some, Bool.and_false, Bool.false_eq_true, if_false,
+    resumeEndpointIndex, List.drop_zero]
+  exact endpointLoop_concrete hw hep hcl hl node
+
 end Expand
